@@ -732,13 +732,31 @@ class TrajectoryStore:
                 'All trajectories in an indexable TrajectoryStore must have '
                 'flight_id field, and non-indexable stores must not have it'
             )
-        if self.indexable is None:
-            self.indexable = has_flight_id
 
-        # Maintain count of trajectories in store for indexing.
+        # A store linked to NetCDF files has its schema fixed by those files,
+        # whether or not any trajectory is currently held in the cache (e.g.
+        # at the start of an APPEND session).
+        if self.nc_linked and set(trajectory._fieldsets) != set(self._nc.keys()):
+            raise ValueError(
+                'All trajectories in a TrajectoryStore must have the same '
+                'field sets as the NetCDF files of the store'
+            )
+
+        # All required values must be present. This is checked here, before
+        # any state is changed, so that a rejected trajectory leaves the store
+        # and its files exactly as they were.
+        for name, field in trajectory._data_dictionary.items():
+            if field.required and trajectory._data.get(name) is None:
+                raise ValueError(f'Data field "{name}" is None in added trajectory')
+
+        # Maintain count of trajectories in store for indexing. (Inserting
+        # into the cache can still refuse the trajectory, if it is too large
+        # or an in-memory store would have to evict, so it comes first.)
         saved_index = self._next_index
         self._trajectories[saved_index] = trajectory
         self._next_index += 1
+        if self.indexable is None:
+            self.indexable = has_flight_id
 
         # If this is the first trajectory added to the store, we might need to
         # create the NetCDF files.
@@ -1131,10 +1149,13 @@ class TrajectoryStore:
         if self.mode == self.FileMode.APPEND:
             self._next_index = len(base_nc_file.traj_dim[0])
 
-        # Set up index information.
+        # Set up index information. An existing file holds at least one
+        # trajectory, so whether the store is indexable is already decided.
         if '_index' in base_nc_file.dataset[0].groups:
             self.index_group = base_nc_file.dataset[0].groups['_index']
             self.indexable = True
+        else:
+            self.indexable = False
 
         # Open any associated NetCDF files.
         for name in self.associated_files:
